@@ -1577,6 +1577,12 @@ pub fn tree(rng: &mut Rng) -> Program {
         let step = if ty == 2 { PStep::AddChild(i as u16) } else { PStep::RegisterChild(ty, i as u16) };
         let op = if g.rng.chance(1, 2) { Op::Send { slot: p, script: vec![step], cancel: None } } else { Op::Call { slot: p, script: vec![step], cancel: None } };
         g.prog.clients[0].push(op);
+        // sometimes a parent broadcasts while its child list is still growing: children registered after a broadcast
+        // are entitled to every later one (seeded defect C16r11: a recipient list cached at the first broadcast)
+        if g.rng.chance(1, 4) {
+            let bty = if g.rng.chance(2, 3) { ty } else { g.rng.below(3) as u8 };
+            g.prog.clients[0].push(Op::Send { slot: p, script: vec![PStep::SendToChildren(bty)], cancel: None });
+        }
     }
     // sometimes a child is registered a second time with the same parent: under another type (it is then entitled to
     // both kinds of broadcast) or under the same type (it then gets each broadcast twice)
